@@ -278,6 +278,115 @@ def outcome(f, repo, src):
         return ('crash', repr(e) + traceback.format_exc()[-600:])
 
 
+# ---- frame condition of the cut rules (R1 / R6): synthetic loops, one trivial invariant ---------------------------------
+FRAME_CASES = {
+    # name: (source, expected)   expected 'stop' = the rule must refuse (Unsupported), 'ok' = it must go through
+    'scalar-carried': ('''
+def f(xs):
+    count = 0
+    for x in xs:
+        count += 1
+    return count
+''', 'stop'),
+    'scalar-read-after-loop': ('''
+def f(xs):
+    last = None
+    for x in xs:
+        last = x
+    return last
+''', 'stop'),
+    'list-mutated': ('''
+def f(xs):
+    seen = []
+    for x in xs:
+        seen.append(x)
+    return 0
+''', 'stop'),
+    'dict-mutated-by-callee': ('''
+def f(xs):
+    cache = {}
+    def put(k):
+        cache[k] = 1
+    for x in xs:
+        put(x)
+    return 0
+''', 'stop'),
+    'nonlocal-assigned-by-callee': ('''
+def f(xs):
+    n = 0
+    def bump():
+        nonlocal n
+        n = 5
+    for x in xs:
+        bump()
+    return 0
+''', 'stop'),
+    'attribute-assigned': ('''
+class Box:
+    def __init__(self):
+        self.v = 0
+def f(xs):
+    b = Box()
+    for x in xs:
+        b.v = x
+    return 0
+''', 'stop'),
+    'temporaries-and-fresh-containers': ('''
+def f(xs):
+    for x in xs:
+        t = [x]
+        t.append(x)
+        d = {}
+        d[0] = t
+        u = len(t)
+    return 0
+''', 'ok'),
+}
+
+
+def frame_selftest(repo, verbose=True):
+    import ast
+    import z3
+    from .models import install_loop_rule, LoopSpec, SymSeq, PathEnd
+    from .values import Sym
+
+    class Trivial(LoopSpec):
+        def havoc(self, it, env):
+            pass
+
+        def inv(self, it, env, k):
+            return []
+
+    bad = []
+    for name, (src, want) in FRAME_CASES.items():
+        got = set()
+        for trace in ([True], [False]):                       # arbitrary iteration / exit
+            it = Interp(repo)
+            install_loop_rule(it)
+            m = ModuleV('__frametest__', repo + '/__frametest__.py')
+            it.ctx = Ctx(trace)
+            try:
+                for _ in it.exec_block(ast.parse(src).body, m.env, m):
+                    pass
+                it.loop_specs[('__frametest__.py::f', 1)] = Trivial()
+                n = z3.Int('n')
+                it.ctx.assume(n >= 0)
+                it.call(m.env['f'], [SymSeq([], n, lambda i: Sym(z3.Function('el', z3.IntSort(), z3.IntSort())(i)), 'list')], {})
+                got.add('ok')
+            except PathEnd:
+                got.add('ok')
+            except Unsupported as u:
+                got.add('stop')
+            except Exception as e:
+                got.add('crash ' + repr(e)[:200])
+        verdict = 'stop' if 'stop' in got else ('ok' if got == {'ok'} else sorted(got)[0])
+        if verdict != want:
+            bad.append(f'selftest frame-rule {name}: expected {want}, got {sorted(got)}')
+        if verbose:
+            print(f'selftest frame-rule {name}: {verdict} (expected {want})')
+    return bad
+
+
 def main(repo, verbose=True):
     """returns the list of disagreements (empty = the interpreter agrees with CPython on every script)"""
     bad = []
@@ -308,6 +417,7 @@ def main(repo, verbose=True):
         bad.append(msg)
         if verbose:
             print(msg)
+    bad.extend(frame_selftest(repo, verbose))
     return bad
 
 
